@@ -8,7 +8,7 @@
 From Coq Require Import List ZArith Bool Lia Sorting.Sorted.
 From Verif Require Import C10.Model C10.Proofs C10.Proofs2 C10.Proofs3 C10.Plugin C10.PluginProofs
   C10.Split C10.SplitProofs C10.Exact C10.Release C10.Counts C10.Ttl C10.Bridge
-  C10.Sized C10.SizedProofs C10.PluginLift C10.Timer C10.Observe C10.Scrape C10.ScrapeProofs.
+  C10.Sized C10.SizedProofs C10.PluginLift C10.PluginSched C10.PluginCheck C10.Timer C10.Observe C10.Scrape C10.ScrapeProofs.
 Import ListNotations.
 Open Scope Z_scope.
 
@@ -1142,6 +1142,187 @@ Example C10_plugin_lift_nontrivial :
            = (2, [4; 2], [4], [Some (VNoOp, 0); None; Some (VEarly 503, 2); None])
   | _ => False
   end.
+Proof. vm_compute. reflexivity. Qed.
+
+(* ------------------------------------------------------------------ *)
+(* The same, with side conditions that are a boolean function of the   *)
+(* plugin history (PluginSched.v; audit 2, suggestion 3).              *)
+
+(* [psched tv v k acts] computes, for every queue instance ever constructed for
+   key k (in construction order), the instant of its construction and its
+   sized schedule: the queue-level content ([kq_of]) of exactly the ENABLED
+   actions of the history that worked on that instance, in history order, each
+   once.  The queue instances are the sized runs of these schedules, index by
+   index — this is [rep_by] with order and multiplicity ([rep_byb] = "(t0, l)
+   is entry h of [psched]"), and it gives the membership conjunct back. *)
+Theorem C10_plugin_instances_are_computed_runs : forall tv v acts k,
+  insts (pget k (prun tv v pinit acts)) =
+    map (fun tl => qrun (ccfg k 0) (init (ccfg k 0) (fst tl)) (snd tl)) (psched tv v k acts) /\
+  (forall h t0 l, rep_byb tv v k acts h t0 l ->
+     Forall (fun qa => exists a, In (PK k a) acts /\ kq_of tv a = Some qa) l).
+Proof.
+  intros tv v acts k. split; [exact (insts_psched tv v k acts)|].
+  intros h t0 l R. exact (rep_byb_from tv v k acts h t0 l R).
+Qed.
+Print Assumptions C10_plugin_instances_are_computed_runs.
+
+(* [inst_outsideb tv v k acts h] evaluates no_lost_handoff && no_barging at
+   every step of the sized run of the computed schedule of instance h (false
+   if there is no such instance); [outsideb] is the conjunction over the
+   instances of the key.  No strand outside the two findings, per queue
+   instance, with that boolean as the only side condition. *)
+Theorem C10_plugin_holds_outside_findings_decidable : forall tv v acts k h s,
+  nth_error (insts (pget k (prun tv v pinit acts))) h = Some s ->
+  exists t0 l,
+    nth_error (psched tv v k acts) h = Some (t0, l) /\
+    s = qrun (ccfg k 0) (init (ccfg k 0) t0) l /\
+    Forall (fun qa => exists a, In (PK k a) acts /\ kq_of tv a = Some qa) l /\
+    (inst_outsideb tv v k acts h = true <->
+     Forall (fun qt => no_lost_handoff (ccfg k 0) (snd qt) = true /\ no_barging (ccfg k 0) (snd qt) = true)
+            (qtrace (ccfg k 0) (init (ccfg k 0) t0) l)) /\
+    (inst_outsideb tv v k acts h = true ->
+     Forall (fun qt => forall id, passed_over (ccfg k 0) (snd qt) id = false)
+            (qtrace (ccfg k 0) (init (ccfg k 0) t0) l) /\
+     strand (ccfg k 0) (map snd (qtrace (ccfg k 0) (init (ccfg k 0) t0) l)) = false /\
+     (forall r, In r (reqs s) -> live r = true -> In (entry_of r) (heap s))).
+Proof.
+  intros tv v acts k h s N.
+  destruct (rep_byb_sound tv v k acts h s N) as [t0 [l [R E]]].
+  exists t0, l. split; [exact R|]. split; [exact E|].
+  split; [exact (rep_byb_from tv v k acts h t0 l R)|].
+  assert (Sp : inst_outsideb tv v k acts h = true <->
+               Forall (qexact (ccfg k 0)) (qtrace (ccfg k 0) (init (ccfg k 0) t0) l)).
+  { unfold inst_outsideb. unfold rep_byb in R. rewrite R. exact (sched_outsideb_spec k (t0, l)). }
+  split; [exact Sp|]. intro B. apply Sp in B.
+  destruct (C10_sized_holds_outside_findings (ccfg k 0) t0 l B) as [P S].
+  split; [exact P|]. split; [exact S|]. rewrite E.
+  exact (qrun_HL (ccfg k 0) l (init (ccfg k 0) t0) (GI_init (ccfg k 0) t0) B).
+Qed.
+Print Assumptions C10_plugin_holds_outside_findings_decidable.
+
+(* for the remedy as a whole: one boolean of the history covers every queue
+   instance of the key *)
+Theorem C10_plugin_no_strand_if_outsideb : forall tv v acts k,
+  outsideb tv v k acts = true ->
+  forall s, In s (insts (pget k (prun tv v pinit acts))) ->
+    forall r, In r (reqs s) -> live r = true -> In (entry_of r) (heap s).
+Proof.
+  intros tv v acts k O s I. destruct (In_nth_error _ _ I) as [h N].
+  destruct (C10_plugin_holds_outside_findings_decidable tv v acts k h s N) as [t0 [l [R [_ [_ [_ X]]]]]].
+  apply X. apply outsideb_inst; [exact O|]. apply nth_error_Some. now rewrite R.
+Qed.
+Print Assumptions C10_plugin_no_strand_if_outsideb.
+
+(* Suite [plugin_outside] evaluates [PluginCheck.run_plugin_outside] on the
+   histories suite plugin executed: an accepted case is a history on which the
+   boolean side condition holds for every remedy key of the case, so the
+   theorem above applies to every queue instance of the executed history. *)
+Theorem C10_accepted_outside_case : forall tbl cacts counts results,
+  run_plugin_outside (tbl, cacts, counts, results) = None ->
+  exists macts,
+    mexpand_all tbl cacts = Some macts /\
+    forall k p, In (k, p) tbl -> outsideb code_ttl code_variant k (strip macts) = true.
+Proof.
+  intros tbl cacts counts results H. unfold run_plugin_outside in H.
+  destruct (mexpand_all tbl cacts) as [macts|]; [|discriminate].
+  exists macts. split; [reflexivity|]. intros k p I.
+  destruct (flat_map (outside_report (strip macts)) (map fst tbl)) as [|x t] eqn:E; [|discriminate].
+  destruct (outsideb code_ttl code_variant k (strip macts)) eqn:O; [reflexivity|].
+  assert (X : In (k, map (sched_findings k) (psched code_ttl code_variant k (strip macts)))
+                 (flat_map (outside_report (strip macts)) (map fst tbl))).
+  { apply in_flat_map. exists k. split; [apply (in_map fst _ _ I)|].
+    unfold outside_report. rewrite O. now left. }
+  rewrite E in X. destruct X.
+Qed.
+Print Assumptions C10_accepted_outside_case.
+
+(* Holds: a plugin case suite plugin ACCEPTS ([run_mplugin] = None; two metrics
+   reads, queue size 2, quota 1 per second): request 1 takes the slot, 2 and 3
+   park, 4 is refused (queue full), the pass at 1 s releases 2, the pass at 2 s
+   releases 3.  The computed schedule of the one queue instance is shown; the
+   boolean is true on it. *)
+Example C10_plugin_outsideb_holds :
+  let ka : qkey := (1, 1, 1) in
+  let tbl := [(ka, {| p_ttl_e := 16; p_qsize := 2; p_status := 429; p_prz := None |})] in
+  let hist :=
+    [MC (CLookup 0 1 10); MC (CEnq 0 1 [] 10 10); MCScrape 11;
+     MC (CLookup 0 2 11); MC (CEnq 0 2 [] 11 11); MC (CR 0 2 RPark 11);
+     MC (CLookup 0 3 12); MC (CEnq 0 3 [] 12 12); MC (CR 0 3 RPark 12);
+     MC (CLookup 0 4 13); MC (CEnq 0 4 [] 13 13);
+     MC (CTick 0 0 second); MC (CR 0 2 RReturn second); MCScrape (second + 1);
+     MC (CTick 0 0 (2 * second)); MC (CR 0 3 RReturn (2 * second))] in
+  let counts := map Some [0; 0; 0; 0; 1; 1; 1; 2; 2; 2; 2; 2; 1; 1; 1; 0] in
+  let res := [(Some 0%nat, 1, Some (VNoOp, 10)); (Some 0%nat, 2, Some (VNoOp, second));
+              (Some 0%nat, 3, Some (VNoOp, 2 * second)); (Some 0%nat, 4, Some (VEarly 429, 13))] in
+  run_mplugin (tbl, hist, counts, res) = None /\
+  run_plugin_outside (tbl, hist, counts, res) = None /\
+  match mexpand_all tbl hist with
+  | Some macts =>
+      let acts := strip macts in
+      psched code_ttl code_variant ka acts =
+        [(10, [(2, EnqLocked 1 0 10 (2 * second) 10);
+               (2, EnqLocked 2 0 11 (2 * second) 11); (0, Park 2 11);
+               (2, EnqLocked 3 0 12 (2 * second) 12); (0, Park 3 12);
+               (2, EnqLocked 4 0 13 (2 * second) 13);
+               (0, Tick second); (0, Return 2 second);
+               (0, Tick (2 * second)); (0, Return 3 (2 * second))])] /\
+      inst_outsideb code_ttl code_variant ka acts 0 = true /\
+      outsideb code_ttl code_variant ka acts = true /\
+      inst_outsideb code_ttl code_variant ka acts 1 = false   (* no such instance *)
+  | None => False
+  end.
+Proof. vm_compute. repeat split; reflexivity. Qed.
+
+(* Fails because of F-C10 (lost hand-off), at plugin level: the pass at 1 s
+   pops the entry of request 2 while it is between Unlock and its select (step
+   2 of the computed schedule: no_lost_handoff false, no_barging true); request
+   2 parks afterwards, is not in the heap, the passes at 2 s and 3 s have a free
+   slot and do not release it, it expires.  Every action is enabled. *)
+Example C10_plugin_outsideb_fails_lost_handoff :
+  let ka : qkey := (1, 1, 1) in
+  let p := {| p_ttl_e := 16; p_qsize := 2; p_status := 429; p_prz := None |} in
+  let acts :=
+    [PK ka (KLookup 1 10); PK ka (KEnq 1 p [] 10 10);
+     PK ka (KLookup 2 11); PK ka (KEnq 2 p [] 11 11); PK ka (KTick 0 second);
+     PK ka (KR 2 RPark second); PK ka (KTick 0 (2 * second)); PK ka (KTick 0 (3 * second));
+     PK ka (KR 2 RTtl (3 * second)); PK ka (KR 2 RReturn (3 * second))] in
+  (penabled code_ttl code_variant pinit acts,
+   outsideb code_ttl code_variant ka acts,
+   map (sched_findings ka) (psched code_ttl code_variant ka acts),
+   pverdict (prun code_ttl code_variant pinit acts) (Some ka) 2) =
+  (true, false, [[(2%nat, false, true)]], Some (VEarly 429, 3 * second)).
+Proof. vm_compute. reflexivity. Qed.
+
+(* the same history as a case of suite [plugin_outside]: reported, with the key
+   and the located event *)
+Example C10_plugin_outside_case_reports_lost_handoff :
+  let ka : qkey := (1, 1, 1) in
+  let tbl := [(ka, {| p_ttl_e := 16; p_qsize := 2; p_status := 429; p_prz := None |})] in
+  let hist :=
+    [MC (CLookup 0 1 10); MC (CEnq 0 1 [] 10 10); MC (CLookup 0 2 11); MC (CEnq 0 2 [] 11 11);
+     MC (CTick 0 0 second); MC (CR 0 2 RPark second); MCScrape (second + 1)] in
+  run_plugin_outside (tbl, hist, [], []) = Some [(ka, [[(2%nat, false, true)]])].
+Proof. vm_compute. reflexivity. Qed.
+
+(* Fails because of F-C10b (barging): request 2 is parked; after the boundary
+   request 3 runs its locked part before the roll-over pass and takes the fresh
+   slot (step 3 of the computed schedule: no_lost_handoff true, no_barging
+   false); the pass finds the quota used; request 2 expires. *)
+Example C10_plugin_outsideb_fails_barging :
+  let ka : qkey := (1, 1, 1) in
+  let p := {| p_ttl_e := 12; p_qsize := 2; p_status := 429; p_prz := None |} in
+  let acts :=
+    [PK ka (KLookup 1 10); PK ka (KEnq 1 p [] 10 10);
+     PK ka (KLookup 2 11); PK ka (KEnq 2 p [] 11 11); PK ka (KR 2 RPark 11);
+     PK ka (KLookup 3 (second + 5)); PK ka (KEnq 3 p [] (second + 5) (second + 5));
+     PK ka (KTick 0 (second + 6));
+     PK ka (KR 2 RTtl (second + second / 2 + 11)); PK ka (KR 2 RReturn (second + second / 2 + 11))] in
+  (penabled code_ttl code_variant pinit acts,
+   outsideb code_ttl code_variant ka acts,
+   map (sched_findings ka) (psched code_ttl code_variant ka acts),
+   map (fun id => pverdict (prun code_ttl code_variant pinit acts) (Some ka) id) [1; 2; 3]) =
+  (true, false, [[(3%nat, true, false)]],
+   [Some (VNoOp, 10); Some (VEarly 429, second + second / 2 + 11); Some (VNoOp, second + 5)]).
 Proof. vm_compute. reflexivity. Qed.
 
 (* ================================================================== *)
